@@ -394,7 +394,14 @@ func runC14(c *Ctx) {
 	} else {
 		c.Unresolved("C14.J1", "patch.PatchesFromDocument")
 	}
-	c.Min("C14.J1", 1)
+	if w, err := buildWitness(c.Fset); err == nil {
+		_, pos := c.indexGuardedSeparators(w.fns["sepWitness"])
+		_, neg := c.indexGuardedSeparators(w.fns["sepOK"])
+		c.alive("C14.J1", "separator by loop index with conditional elements", len(pos) > 0, len(neg) == 0)
+	} else {
+		c.Check("C14.J1", "positive-example:build", false, 0, "built-in positive examples could not be built: "+err.Error())
+	}
+	c.Min("C14.J1", 2)
 	c.Assume("round-trip equalities are value-level and not decided")
 }
 
